@@ -163,3 +163,31 @@ func VerifC19_DestroyLeftovers() {
 	vpAssert(gerr == nil, "other-dmap-still-readable")
 	vpReach("end")
 }
+
+// VerifC19_DestroyUnreachable: one member cannot be reached (its port is closed, it is still a member) while Destroy
+// runs through the other one. A Destroy that reports success has removed every copy everywhere: once the member
+// answers again nothing of the DMap is left on it and every key reads not-found through either member. A Destroy that
+// could not reach everybody says so (an error); repeated when everybody answers, it succeeds and wipes.
+func VerifC19_DestroyUnreachable() {
+	replicas := 1 + vpChoose("replicas", 2)
+	cl := vpTwoMembers(replicas, 0)
+	ctx := context.Background()
+	vpAssume(vpDMap(cl.members[0], "a").Put(ctx, "c", []byte{1}, nil) == nil)
+	if vpChoose("leftover-on-1", 2) == 1 { // member 1 also holds a primary fragment of its own (left-over / earlier owner)
+		vpPlace(cl.members[1], "a", "bc", []byte{3}, 0, 1, partitions.PRIMARY)
+	}
+	down := vpChoose("down", 2)
+	cl.members[down].down = true
+	err := vpDMap(cl.members[1-down], "a").Destroy(ctx)
+	cl.members[down].down = false
+	if err != nil {
+		vpAssert(vpDMap(cl.members[vpChoose("second", 2)], "a").Destroy(ctx) == nil, "destroy-succeeds-when-everybody-answers")
+	}
+	for m := 0; m < 2; m++ {
+		vpAssert(!vpHasFragment(cl.members[m], "a", partitions.PRIMARY, 1), "successful-destroy-left-no-primary-fragment")
+		vpAssert(!vpHasFragment(cl.members[m], "a", partitions.BACKUP, 1), "successful-destroy-left-no-backup-fragment")
+		_, gerr := vpDMap(cl.members[m], "a").Get(ctx, "c")
+		vpAssert(errors.Is(gerr, ErrKeyNotFound), "destroyed-key-reads-not-found")
+	}
+	vpReach("end")
+}
